@@ -11,6 +11,11 @@ one() {
   if ! python3 tools/patch2overlay.py $d/patch.diff $T/ov >/dev/null 2>&1; then echo "$kind $id STALE (patch no longer applies)"; rm -rf $T; return; fi
   mkdir -p $T/verif/evidence; cp known_findings.json $T/verif/
   OUT=$(LEDGERLINT_VERIF=$T/verif bin/ledgerlint checkall all quick -overlay $T/ov/overlay.json 2>&1)
+  # a run that did not reach all 20 summary lines (killed, out of memory on a loaded machine) is retried once
+  if [ "$(echo "$OUT" | grep -c ' quick: ')" != 20 ]; then
+    OUT=$(LEDGERLINT_VERIF=$T/verif bin/ledgerlint checkall all quick -overlay $T/ov/overlay.json 2>&1)
+  fi
+  if [ "$(echo "$OUT" | grep -c ' quick: ')" != 20 ]; then echo "$kind $id ERROR (checker did not complete: $(echo "$OUT" | tail -1 | cut -c1-120))"; rm -rf $T; return; fi
   rules=$(echo "$OUT" | grep '\[violated\]\|\[undecided\]' | sed -E 's/^[^[]*\[(violated|undecided)\] (C[0-9]+\.[A-Za-z0-9.]+) .*/\2/' | sort | uniq -c | awk '{printf "%s×%s ", $2, $1}')
   own=$(echo "$OUT" | grep -c "^VIOLATION property=$prop ")
   tot=$(echo "$OUT" | grep -c "^VIOLATION")
@@ -26,5 +31,5 @@ export -f one
 ls -d seeded/C* benign/C* benign/R2-* benign/R3-* benign/R4-* | xargs -P $J -I{} bash -c 'one {}' | sort > tools/regress.out
 grep -c DETECTED tools/regress.out | sed 's/^/seeds detected: /'
 grep -c QUIET tools/regress.out | sed 's/^/benign quiet: /'
-grep 'MISSED\|FALSE-ALARM\|STALE' tools/regress.out
+grep 'MISSED\|FALSE-ALARM\|STALE\|ERROR' tools/regress.out
 true
